@@ -208,10 +208,11 @@ VARIANTS = [
     V( 'elements-truthiness-default', LOGIX, "elm = data[context].get( 'elements', cnt - beg )", "elm			= data[context].get( 'elements' ) or cnt - beg", fires=[ 'D-VALIDATE' ] ),
     V( 'frag-status-byte-criterion', LOGIX, "completed = end == endactual\n data[context].data = recs", "completed		= end == endactual and offremains+max_size >= len( recs ) * attribute.parser.struct_calcsize\n                data[context].data	= recs", fires=[ 'F-STATUS' ] ),
     # ---- C17 render / parse (T-RENDER)
-    V( 'render-fraction-from-unrounded', TIMES, "result += ( '%.*f' % ( subsecond, value ))[-subsecond-1:]", "result	       += ( '%.*f' % ( subsecond, self.value ))[-subsecond-1:]", fires=[ 'T-RENDER' ] ),
+    V( 'render-fraction-from-unrounded', TIMES, "result += ( '%.*f' % ( subsecond, value % 1 ))[-subsecond-1:]", "result	       += ( '%.*f' % ( subsecond, self.value % 1 ))[-subsecond-1:]", fires=[ 'T-RENDER' ] ),
+    V( 'render-fraction-sign-unsafe', TIMES, "result += ( '%.*f' % ( subsecond, value % 1 ))[-subsecond-1:]", "result	       += ( '%.*f' % ( subsecond, value ))[-subsecond-1:]", fires=[ 'T-RENDER' ], why='defect R' ),
     V( 'render-seconds-from-unrounded', TIMES, "dt = self.datetime_from_number( value, tzinfo=tzinfo )", "dt			= self.datetime_from_number( self.value, tzinfo=tzinfo )", fires=[ 'T-RENDER' ] ),
     V( 'render-truncates', TIMES, "value = round( self.value, subsecond ) if subsecond else self.value", "value			= self.value", fires=[ 'T-RENDER' ] ),
-    V( 'render-fraction-slice-short', TIMES, "( subsecond, value ))[-subsecond-1:]", "( subsecond, value ))[-subsecond:]", fires=[ 'T-RENDER' ] ),
+    V( 'render-fraction-slice-short', TIMES, "( subsecond, value % 1 ))[-subsecond-1:]", "( subsecond, value % 1 ))[-subsecond:]", fires=[ 'T-RENDER' ] ),
     V( 'parse-fraction-left-pad', TIMES, "terms[6] += '0' * ( 6 - len( terms[6] ))", "terms[6]	= terms[6].zfill( 6 )", fires=[ 'T-RENDER' ] ),
     V( 'number-floor-division', TIMES, "return calendar.timegm( dt.utctimetuple() ) + dt.microsecond / 1000000", "return calendar.timegm( dt.utctimetuple() ) + dt.microsecond // 1000000", fires=[ 'T-RENDER' ] ),
     # ---- C11 regex translation structure (X-*)
